@@ -19,10 +19,9 @@ SPEC = dict(
           "table pKa = summary pKa = API value to the printed precision. The tail of calculate_pka (coupling_effects, removal of the "
           "determinants towards penalised groups from the titratable groups, recalculation of every total) is replayed through the model: "
           "the state of every group when coupling_effects is entered plus the labels it returns give, through removeDeterminants and "
-          "calculateTotal, the state when calculate_pka returns, bit-for-bit (remove_then_total is the theorem about that step).",
-    note="That every mutation in the real pipeline is followed by a recalculation before results are observable is a property of the "
-         "call graph; it is established by evaluating the identity on real runs over all option combinations, not by a theorem about "
-         "the whole pipeline. Number formatting is Python's; compared at the printed precision.",
+          "calculateTotal, the state when calculate_pka returns, bit-for-bit (remove_then_total is the theorem about that step). "
+          "The whole scoring phase is modelled as well (Model/Scoring.lean: calculate_pka of one conformation with everything it calls - desolvation, backbone and ion determinants, backbone reorganisation, the pair loop with angle factors, exception rules and both families of pair rules, the iterative scheme, totals, coupling penalties and the removal of determinants towards penalised groups; parameters regenerated from /repo and read back from the compiled driver); its Float instance is compared with the real calculate_pka on every distinct conformation this check runs - counts, partners and order exactly, numbers to 1e-9 (they are bit-identical on the unchanged tree). pipeline_consistent: for every structure, parameter set and switch, the pKa that score leaves on a group is calculate_total_pka of exactly the desolvation terms and determinant lists it leaves on that group - proved for every scalar type, hence also for the Float instance that is compared with the code; pipeline_sum_identity is the reals form (model pKa + both desolvation terms + the three sums; the configured value for a bridged cysteine).",
+    note="The pipeline theorem is about the scoring model (shared_determinants is outside that model and is covered by the record theorems plus the identity evaluated on real runs over all option combinations). Averaging over conformations and the printed rows are separate theorems. Number formatting is Python's; compared at the printed precision.",
     technique="Lean 4 proof (algebra over Q, induction over records, list lemmas for the rows) + bitwise Float correspondence + spec evaluation on real runs",
     lean=["Propka.Props.C02"],
     rule="test files (incl. all multi-conformation ones) and library structures with ligands x option/parameter settings; every group "
